@@ -31,9 +31,15 @@ func Normalize(dict map[string]any, env types.Mapping) (map[string]any, error) {
 	}
 
 	if d, ok := dict["services"]; ok {
-		services := d.(map[string]any)
+		services, ok := d.(map[string]any)
+		if !ok {
+			return nil, fmt.Errorf("services must be a mapping")
+		}
 		for name, s := range services {
-			service := s.(map[string]any)
+			service, ok := s.(map[string]any)
+			if !ok {
+				return nil, fmt.Errorf("services.%s must be a mapping", name)
+			}
 
 			if service["pull_policy"] == types.PullPolicyIfNotPresent {
 				service["pull_policy"] = types.PullPolicyMissing
@@ -45,7 +51,10 @@ func Normalize(dict map[string]any, env types.Mapping) (map[string]any, error) {
 			}
 
 			if b, ok := service["build"]; ok {
-				build := b.(map[string]any)
+				build, ok := b.(map[string]any)
+				if !ok {
+					return nil, fmt.Errorf("services.%s.build must be a mapping", name)
+				}
 				if build["context"] == nil {
 					build["context"] = "."
 				}
@@ -66,14 +75,23 @@ func Normalize(dict map[string]any, env types.Mapping) (map[string]any, error) {
 
 			var dependsOn map[string]any
 			if d, ok := service["depends_on"]; ok {
-				dependsOn = d.(map[string]any)
+				dependsOn, ok = d.(map[string]any)
+				if !ok {
+					return nil, fmt.Errorf("services.%s.depends_on must be a mapping", name)
+				}
 			} else {
 				dependsOn = map[string]any{}
 			}
 			if l, ok := service["links"]; ok {
-				links := l.([]any)
+				links, ok := l.([]any)
+				if !ok {
+					return nil, fmt.Errorf("services.%s.links must be a list", name)
+				}
 				for _, e := range links {
-					link := e.(string)
+					link, ok := e.(string)
+					if !ok {
+						return nil, fmt.Errorf("services.%s.links must be a list of strings", name)
+					}
 					parts := strings.Split(link, ":")
 					if len(parts) == 2 {
 						link = parts[0]
@@ -89,8 +107,11 @@ func Normalize(dict map[string]any, env types.Mapping) (map[string]any, error) {
 			}
 
 			for _, namespace := range []string{"network_mode", "ipc", "pid", "uts", "cgroup"} {
-				if n, ok := service[namespace]; ok {
-					ref := n.(string)
+				if n, ok := service[namespace]; ok && n != nil {
+					ref, ok := n.(string)
+					if !ok {
+						return nil, fmt.Errorf("services.%s.%s must be a string", name, namespace)
+					}
 					if strings.HasPrefix(ref, types.ServicePrefix) {
 						shared := ref[len(types.ServicePrefix):]
 						if _, ok := dependsOn[shared]; !ok {
@@ -105,10 +126,19 @@ func Normalize(dict map[string]any, env types.Mapping) (map[string]any, error) {
 			}
 
 			if v, ok := service["volumes"]; ok {
-				volumes := v.([]any)
+				volumes, ok := v.([]any)
+				if !ok {
+					return nil, fmt.Errorf("services.%s.volumes must be a list", name)
+				}
 				for i, volume := range volumes {
-					vol := volume.(map[string]any)
-					target := vol["target"].(string)
+					vol, ok := volume.(map[string]any)
+					if !ok {
+						return nil, fmt.Errorf("services.%s.volumes[%d] must be a mapping", name, i)
+					}
+					target, ok := vol["target"].(string)
+					if !ok {
+						return nil, fmt.Errorf("services.%s.volumes[%d].target must be a string", name, i)
+					}
 					vol["target"] = path.Clean(target)
 					volumes[i] = vol
 				}
@@ -116,9 +146,15 @@ func Normalize(dict map[string]any, env types.Mapping) (map[string]any, error) {
 			}
 
 			if n, ok := service["volumes_from"]; ok {
-				volumesFrom := n.([]any)
+				volumesFrom, ok := n.([]any)
+				if !ok {
+					return nil, fmt.Errorf("services.%s.volumes_from must be a list", name)
+				}
 				for _, v := range volumesFrom {
-					vol := v.(string)
+					vol, ok := v.(string)
+					if !ok {
+						return nil, fmt.Errorf("services.%s.volumes_from must be a list of strings", name)
+					}
 					if !strings.HasPrefix(vol, types.ContainerPrefix) {
 						spec := strings.Split(vol, ":")
 						if _, ok := dependsOn[spec[0]]; !ok {
